@@ -123,9 +123,12 @@ func c12One(c c12Case, r *rep.R) (string, string) {
 	if c.LenByte != 0 {
 		w.BMC.Cfg.AnnounceLen[c.LenPayload] = byte(c.LenByte)
 	}
+	w.T.MaxAttempts = 300
 	for i := 0; i < c.Warmup; i++ {
-		if _, err := w.Conn.GetSystemGUID(w.Ctx); err != nil {
-			return "C12/warmup", fmt.Sprintf("session-less command %d on the connection failed: %v", i+1, err)
+		var err error
+		p := guard(func() { _, err = w.Conn.GetSystemGUID(w.Ctx) })
+		if p != "" || err != nil {
+			return "C12/warmup", fmt.Sprintf("session-less command %d on a connection that answered every request failed: %v %s", i+1, err, p)
 		}
 	}
 	if c.Warmup > 0 {
